@@ -11,6 +11,8 @@ import (
 	"log"
 	"net"
 	"net/http"
+	"net/url"
+	"strings"
 	"sync"
 	"time"
 
@@ -117,4 +119,24 @@ func RegisterTLSHandler(addr string, cert tls.Certificate, h http.Handler) {
 		ErrorLog:          log.New(io.Discard, "", 0),
 	}
 	go func() { _ = srv.ServeTLS(l, "", "") }()
+}
+
+// ParsePairs splits a raw query on '&' only and decodes every name and value by itself; what does not decode is kept
+// as it is. Unlike url.ParseQuery it does not give up on the whole query because of one pair (a ';', a stray '%').
+func ParsePairs(raw string) map[string][]string {
+	out := map[string][]string{}
+	for _, pair := range strings.Split(raw, "&") {
+		if pair == "" {
+			continue
+		}
+		k, v, _ := strings.Cut(pair, "=")
+		if d, err := url.QueryUnescape(k); err == nil {
+			k = d
+		}
+		if d, err := url.QueryUnescape(v); err == nil {
+			v = d
+		}
+		out[k] = append(out[k], v)
+	}
+	return out
 }
